@@ -29,4 +29,4 @@ TRUSTED_EXTRA = ["gauss_quad 0.2.4 node/weight generation (checked numerically a
 
 def families(tier, seed):
     n = 360 if tier == "quick" else 6000
-    return [("quad", seed, n, ["core"]), ("quad", seed, 1, ["gk2d"])]
+    return [("quad", seed, n, ["core"]), ("quad", seed, 1, ["gk2d"]), ("quad", seed, 1, ["large"])]
